@@ -25,7 +25,7 @@ from pbt.core import Violation, HarnessError, Ctx  # noqa: E402
 
 WATCHDOG_S = {"quick": 20 * 60, "thorough": 150 * 60}  # generous: a busy machine must not turn a healthy check into exit 2
 MAX_SAMPLES = 3
-HEALTH_SCALE = 0.5
+HEALTH_SCALE = 0.4  # floors are enforced at 40 % of their declared value (seed-to-seed scatter; a starved class shows as a share near zero)
 # per-property multiplier of the per-shard thorough budgets declared in the modules, chosen from measured wall times so
 # that every thorough check takes roughly 4-8 minutes on 16 cores (enumerations are complete and do not scale)
 THOROUGH_MULT = {"C01": 2.0, "C03": 1.5, "C04": 4.0, "C05": 4.0, "C06": 1.5, "C07": 2.0, "C08": 5.0, "C09": 4.0, "C10": 3.0,
